@@ -198,8 +198,17 @@ where
                     break;
                 }
                 // a panic outside contract / monitor code is a harness defect: the history is reported as inconclusive
+                crate::chain::MODEL_GAP.with(|g| *g.borrow_mut() = None);
                 let rep = match std::panic::catch_unwind(std::panic::AssertUnwindSafe(|| f(i))) {
-                    Ok(r) => r,
+                    Ok(mut r) => {
+                        // the mini-chain met something it does not model: nothing observed in this history says
+                        // anything about the contracts
+                        if let Some(gap) = crate::chain::MODEL_GAP.with(|g| g.borrow().clone()) {
+                            r.out.violations.clear();
+                            r.out.inconclusive.push(format!("history {}: the chain model has a gap here ({}); its observations are discarded", i, gap));
+                        }
+                        r
+                    }
                     Err(p) => {
                         let mut out = Out::default();
                         out.inconclusive.push(format!("harness panic in history {}: {}", i, crate::chain::panic_text(&p)));
